@@ -1,7 +1,7 @@
 """Mutation catalogs.  Every mutation returns (new_model, info) where info carries
 the *model-derived* expectation: kind, the named type or interface touched, the
 set of exported interfaces that must be affected, names removed/added."""
-import copy
+import copy, json
 from hypothesis import strategies as st
 from . import model as M
 from .strategies import _pick, _weighted, Ctx, texpr, paramtype, rettype
@@ -346,6 +346,9 @@ def applicable_harmless(m):
     fns = [f for k, f in M.exported(m) if k == "fn" and f["params"]]
     if any(any(M.strip_cv(p["type"])[0] in ("b", "p", "n") for p in f["params"]) for f in fns):
         out.append("param_cv")
+    tds = [t for t in _reachable_of_kind(m, ("typedef",))]
+    if tds:
+        out.append("typedef_rename")
     if m["lang"] == "cxx":
         cls = _reachable_of_kind(m, ("class", "struct"))
         if any(any(mm.get("access") for mm in t["members"]) for t in cls):
@@ -385,6 +388,16 @@ def harmless(draw, m, only=None):
             return None, None
         info["iface"] = f["name"]
         info["affected"] = [f["name"]]
+    elif kind == "typedef_rename":
+        t = _pick(draw, _reachable_of_kind(m2, ("typedef",)))
+        old, new = t["name"], t["name"] + "r"
+        info["type"] = old
+        info["new_name"] = new
+        info["affected"] = M.affected_by_type(m, old)
+        m2 = json.loads(json.dumps(m2).replace(json.dumps(["n", old]), json.dumps(["n", new])))
+        for x in m2["types"]:
+            if x["name"] == old:
+                x["name"] = new
     elif kind == "member_access":
         cls = [t for t in _reachable_of_kind(m2, ("class", "struct")) if any(mm.get("access") for mm in t["members"])]
         t = _pick(draw, cls)
@@ -395,8 +408,10 @@ def harmless(draw, m, only=None):
         info["affected"] = M.affected_by_type(m, t["name"])
     elif kind == "add_nonvirtual_method":
         t = _pick(draw, [t for t in _reachable_of_kind(m2, ("class",))])
+        # defined inside the class (inline): no new exported symbol, only a new member function of the class
         t.setdefault("methods", []).append({"name": "nnv%d" % len(t.get("methods", [])), "ret": ["b", "int"],
-                                            "params": [{"name": "a", "type": ["b", "int"]}], "access": "public"})
+                                            "params": [{"name": "a", "type": ["b", "int"]}], "access": "public",
+                                            "inline": True})
         info["type"] = t["name"]
         info["affected"] = M.affected_by_type(m, t["name"])
     return m2, info
